@@ -65,27 +65,28 @@ META = {
     },
     "C06": {
         "text": "Coq theorems over the hub transition system (any number of publishers and subscriber handlers, registration / history scan / queue / go-live as separate "
-                "steps, Close, crashes; every schedule): with the persistent transport a live subscriber that has not been cut off has been sent, after its replay, exactly "
-                "the matching updates committed after its registration, in commit order (C06_live_exactly_the_matching_suffix), nothing twice for distinct ids "
-                "(C06_exactly_once); the handler writes in FIFO order what was buffered (both transports); the stored history is the commit order, entry k at sequence k; "
+                "steps, Close, crashes; every schedule; both transports): a live subscriber that has not been cut off has been sent, after its replay, exactly the "
+                "matching updates committed after its registration, in commit order (C06_live_exactly_the_matching_suffix), nothing twice when the published ids are "
+                "distinct (C06_exactly_once, with C06_committed_distinct: distinct publisher ids give a duplicate-free commit order, each subscription event being "
+                "dispatched at most once); the handler writes in FIFO order what was buffered; with Bolt the stored history is the commit order, entry k at sequence k; "
                 "the commit order is append-only and an update acknowledged before another one is committed precedes it. Tied to the code by schedule-steered runs of the "
-                "instrumented transports (every schedule with <= 2 preemptions per scenario) and by handler-level histories.",
-        "design_ref": "DESIGN.md §5 C06", "note": HUB_NOTE + " Partial: 'exactly the matching updates' is proved for the Bolt transport with retention off; for the local transport "
-                "the theorems give only-matching (C01), FIFO and the commit order, and exactly-once is judged on the explored schedules only.",
-        "technique": "Coq proof (inductive invariant of the hub LTS over all schedules) + differential correspondence of schedule-steered transport runs and handler-level histories evaluated in Coq",
+                "instrumented transports and of a LocalSubscriber (every schedule with <= 2 preemptions per scenario) and by handler-level histories.",
+        "design_ref": "DESIGN.md §5 C06", "note": HUB_NOTE + " Retention off in the theorems (with bounded retention the same clauses are judged on observed outcomes); for the local "
+                "transport the 'commit order' is the order of the fan-out critical sections.",
+        "technique": "Coq proof (inductive invariant of the hub LTS over all schedules) + differential correspondence of schedule-steered transport / subscriber runs and handler-level histories evaluated in Coq",
     },
     "C07": {
-        "text": "Coq theorem C07_replay_then_live over the hub transition system (persistent transport, crashes and restarts anywhere, every placement of concurrent "
+        "text": "Coq theorem C07_replay_then_live over the hub transition system (both transports, crashes and restarts anywhere, every placement of concurrent "
                 "publishes relative to indexing + cut-off, each step of the history scan and each step of the go-live flush): what a subscriber has been sent, and what "
                 "its handler has written, is always a prefix of the ideal sequence - matching stored updates after the requested id up to the cut-off, then matching "
                 "updates committed after it - and equals it while the subscriber is live and not cut off; the ideal sequence is the matching part of the single "
-                "commit order from just after the requested id ('earliest': from the start; no or unknown id: from the registration point); the scan of a snapshot "
-                "that already contains later updates stops at the cut-off. Tied to the code by schedule-steered runs of the instrumented Bolt transport (restart, "
-                "Last-Event-ID none / earliest / stored / unknown, publishes racing the registration), handler-level histories with restarts and 1000+ update bursts, and "
-                "replays larger than the buffer on a real LocalSubscriber.",
+                "commit order from just after the requested id ('earliest': from the start; no or unknown id, or the local transport: from the registration point); the "
+                "scan of a snapshot that already contains later updates stops at the cut-off. Tied to the code by schedule-steered runs of the instrumented Bolt transport "
+                "(restart, Last-Event-ID none / earliest / stored / unknown, publishes racing the registration) and of a LocalSubscriber, handler-level histories with "
+                "restarts and 1000+ update bursts, and replays larger than the buffer.",
         "design_ref": "DESIGN.md §5 C07", "note": HUB_NOTE + " Partial: theorems are for retention off; bounded retention (replay starts at the oldest retained entry) is "
                 "judged on observed outcomes by Model/TransCases.v and the hub-history spec.",
-        "technique": "Coq proof (inductive invariant of the hub LTS over all schedules and crash points) + differential correspondence of schedule-steered transport runs and handler-level histories evaluated in Coq",
+        "technique": "Coq proof (inductive invariant of the hub LTS over all schedules and crash points) + differential correspondence of schedule-steered transport / subscriber runs and handler-level histories evaluated in Coq",
     },
     "C09": {
         "text": "Coq theorems over the hub transition system with a crash action anywhere in the schedule: acknowledged updates are committed, every database "
